@@ -930,7 +930,7 @@ impl Engine for C15 {
         {
             let mut fr = rng.split("file-route");
             if fr.chance(10) {
-                p.file_route = 1 + fr.below(2) as u8;
+                p.file_route = 1 + fr.below(3) as u8;
             }
         }
         let mut z = rng.split("lazy-jar");
@@ -1268,7 +1268,8 @@ impl Engine for C15 {
             st.nontrivial = true;
             let mut dir = crate::simdir::SimDir::new("c15");
             let names: Vec<String> = (0..n).map(|j| if j == 0 { "main.jar".to_string() } else { format!("lib{}.jar", j - 1) }).collect();
-            if p.file_route == 2 {
+            let mut padded_real: Vec<Option<Vec<u8>>> = vec![];
+            if p.file_route >= 2 {
                 // earlier content of the same paths: the same classes, every one directly below java/lang/Object
                 for j in 0..n {
                     let mut entries = open_entries(&healthy[j]).unwrap_or_default();
@@ -1283,14 +1284,38 @@ impl Engine for C15 {
                             }
                         }
                     }
-                    dir.create(&names[j], &build_jar(&entries, false));
+                    let mut decoy = build_jar(&entries, false);
+                    if p.file_route == 3 {
+                        // same length as the jar that replaces it (a pad entry in each, stored), and the replacement keeps
+                        // the modification time: a cache validated by size and / or mtime does not see the change
+                        // (seeded change C13-13: FileJar::open remembered per path, validated by size)
+                        let mut real_entries = open_entries(&healthy[j]).unwrap_or_default();
+                        let real0 = build_jar(&real_entries, false);
+                        let (pd, pr) = (real0.len().saturating_sub(decoy.len()), decoy.len().saturating_sub(real0.len()));
+                        entries.push(("pad.bin".to_string(), EntryData::File(vec![b'p'; pd])));
+                        real_entries.push(("pad.bin".to_string(), EntryData::File(vec![b'p'; pr])));
+                        decoy = build_jar(&entries, false);
+                        let real = build_jar(&real_entries, false);
+                        if decoy.len() == real.len() {
+                            padded_real.push(Some(real));
+                        } else {
+                            padded_real.push(None);
+                        }
+                    }
+                    dir.create(&names[j], &decoy);
                 }
                 let jars: Vec<dukebox::storage::FileJar> = names.iter().map(|nm| dukebox::storage::FileJar { path: dir.join(nm) }).collect();
                 let _ = no_panic(|| real_pairs(&jars[0]));
                 let _ = no_panic(|| real_add(&jars[0], &jars[1..], &qcal, &qmap));
                 st.probe("file_route.paths_used_before");
                 for j in 0..n {
-                    dir.overwrite(&names[j], &healthy[j]);
+                    match padded_real.get(j) {
+                        Some(Some(real)) => {
+                            dir.overwrite_keep_mtime(&names[j], real);
+                            st.probe("file_route.same_size_same_mtime");
+                        }
+                        _ => dir.overwrite(&names[j], &healthy[j]),
+                    }
                 }
             } else {
                 for j in 0..n {
@@ -1302,7 +1327,7 @@ impl Engine for C15 {
             let jars: Vec<dukebox::storage::FileJar> = names.iter().map(|nm| dukebox::storage::FileJar { path: dir.join(nm) }).collect();
             let pairs = no_panic(|| real_pairs(&jars[0]));
             let add = no_panic(|| real_add(&jars[0], &jars[1..], &qcal, &qmap));
-            let class = if p.file_route == 2 { "residue-after-heal" } else { "schedule-dependence" };
+            let class = if p.file_route >= 2 { "residue-after-heal" } else { "schedule-dependence" };
             match (&pairs, &t0_pairs) {
                 (Err(pm), _) => out.push(Violation::new("T1", "panic", format!("file.detect:{}", panic_path(pm)), pm.clone())),
                 (Ok(Err(e)), Some(_)) => out.push(Violation::new("T1", class, "file.detect.result", format!("fails on the jar stored as a file: {e:#}"))),
@@ -1338,7 +1363,7 @@ impl Engine for C15 {
             let mut q = p.clone();
             q.file_route = 0;
             c.push(q);
-            if p.file_route == 2 {
+            if p.file_route >= 2 {
                 let mut q = p.clone();
                 q.file_route = 1;
                 c.push(q);
